@@ -19,7 +19,7 @@ QUERIES0 = [
 QUERIES1 = ["earliest_start_time", "next_operation", "is_scheduled", "uns_observer", "min_start_time", "start_time", "is_ongoing"]
 INVALID_KINDS = [
     "ahead", "already_scheduled", "ineligible_machine", "machine_too_large",
-    "machine_too_negative", "none_on_flexible",
+    "machine_too_negative", "none_on_flexible", "reassign_ineligible",
 ]
 FEATURE_TYPES = [
     "is_ready", "earliest_start_time", "duration", "is_scheduled",
@@ -57,11 +57,28 @@ def build_from_blocks_reversed(instance):
     return graph
 
 
+def build_from_blocks_jobs_only(instance):
+    """A hand-composed graph with job nodes and a global node but no machine nodes (job-chain edges between the
+    operations, operation-job and job-global edges)."""
+    from job_shop_lib import graphs as g
+    from job_shop_lib.graphs import JobShopGraph
+
+    graph = JobShopGraph(instance)
+    g.add_conjunctive_edges(graph)
+    g.add_job_nodes(graph)
+    g.add_operation_job_edges(graph)
+    g.add_global_node(graph)
+    g.add_job_global_edges(graph)
+    return graph
+
+
 def graph_builder(name):
     from job_shop_lib import graphs as g
 
     if name == "blocks_reversed":
         return build_from_blocks_reversed
+    if name == "blocks_jobs_only":
+        return build_from_blocks_jobs_only
     return {
         "disjunctive": g.build_disjunctive_graph,
         "agent_task": g.build_agent_task_graph,
@@ -448,8 +465,13 @@ class DWorld:
         old_subs = list(old.subscribers)
         self.observers = [(spec, new.subscribers[old_subs.index(o)] if any(o is x for x in old_subs) else o) for spec, o in self.observers]
         self.disp = new
-        self.inst = new.instance
-        self.ops_by_id = [op for job in self.inst.jobs for op in job]
+        if len(self.model.hist) % 2 == 0:
+            self.inst = new.instance
+            self.ops_by_id = [op for job in self.inst.jobs for op in job]
+        else:
+            # a look-ahead: the user keeps dispatching the operation objects they already hold (those of the
+            # original instance) on the copy
+            self.ctx.probe("fork_keeps_original_operation_objects")
         self.ctx.fault("fork_deepcopy")
 
     def arg_query(self, name, arg):
@@ -562,6 +584,22 @@ class DWorld:
             op = self.op_of(j, p)
             mm = op.machines[b % len(op.machines)]
             return (lambda: d.dispatch(op, mm)), f"dispatch(op({j},{p}) ahead of next {nxt[j]}, m={mm})"
+        if kind == "reassign_ineligible":
+            # a scheduled operation taken from the schedule (or the history) is moved to a machine it is not
+            # eligible for through its public attribute: refused, and it stays where it was
+            if not m.hist:
+                return None
+            h = m.hist[a % len(m.hist)]
+            so = next((s for s in d.schedule.schedule[h[2]] if self.jp(s.operation) == (h[0], h[1])), None)
+            if so is None:
+                return None
+            c = [x for x in range(-2, m.nm + 2) if x not in so.operation.machines]
+            mm = self._np(a, b, c[b % len(c)])
+
+            def thunk():
+                so.machine_id = mm
+
+            return thunk, f"scheduled op({h[0]},{h[1]}).machine_id = {mm!r} (ineligible)"
         if kind == "already_scheduled":
             c = m.scheduled()
             if not c:
